@@ -894,6 +894,12 @@ func (e *Env) evalCall(n *ECall) Val {
 		sfail("val() of unsupported kind")
 	case "allocated":
 		x := arg(0)
+		switch x.K {
+		case KSlice:
+			return boolVal(app("<", vc.rt(x.Sl[0]), e.st.alloc))
+		case KIface:
+			return boolVal(app("<", vc.rt(x.If[1]), e.st.alloc))
+		}
 		return boolVal(app("<", vc.rt(x.S), e.st.alloc))
 	}
 	if sf, ok := vc.G.contracts.Specs[n.Fn]; ok {
